@@ -25,7 +25,7 @@ import logging
 logger = logging.getLogger(__name__)
 
 from decimal import Decimal as D
-from collections import deque, defaultdict
+from collections import deque
 
 from lxml import etree
 
@@ -182,7 +182,11 @@ def complex_add(document, cls, tags):
     sequence = etree.Element(XSD('sequence'))
 
     deferred = deque()
-    choice_tags = defaultdict(lambda: etree.Element(XSD('choice')))
+    # members are written to the wire in declaration order, so a <choice> has
+    # to sit where its members are declared: one per run of consecutive
+    # members that share the same xml_choice_group.
+    choice_tag = None
+    choice_group = None
 
     for k, v in type_info.items():
         assert isinstance(k, string_types)
@@ -255,10 +259,14 @@ def complex_add(document, cls, tags):
 
         if a.xml_choice_group is None:
             sequence.append(member)
-        else:
-            choice_tags[a.xml_choice_group].append(member)
+            choice_tag = None
 
-    sequence.extend(choice_tags.values())
+        else:
+            if choice_tag is None or a.xml_choice_group != choice_group:
+                choice_tag = etree.SubElement(sequence, XSD('choice'))
+                choice_group = a.xml_choice_group
+
+            choice_tag.append(member)
 
     if len(sequence) > 0:
         sequence_parent.append(sequence)
